@@ -1,6 +1,6 @@
 (* Model/Dispatch.v — one entry point for the harness: op code + encoded argument -> encoded
    result.  Op codes are listed in harness/ops.py.  Glue, no proofs. *)
-From VK Require Import Base Core STV Pairwise Rules PV Election BallotCtor Cleaning Metrics Loaders GenValidation Codec.
+From VK Require Import Base Core STV Pairwise Rules PV Election BallotCtor Cleaning Metrics Loaders GenValidation PrefInterval Codec.
 
 Definition op_remove_cand (v : val) : val :=
   match v with
@@ -299,6 +299,37 @@ Definition op_combine_checks (v : val) : val :=
   | _ => VE EScript
   end.
 
+Definition ePI (i : pinterval) : val :=
+  VL [VS (map (fun p => VL [ePos (fst p); VQ (snd p)]) (pi_int i)); VS (map ePos (pi_zero i))].
+Definition dPI (v : val) : res pinterval :=
+  match v with
+  | VL [i; z] => let! i' := dList (dPair dPos dQ) i in let! z' := dList dPos z in ok (mkPI i' z')
+  | _ => err EScript
+  end.
+Definition op_mk_interval (v : val) : val :=
+  eRes ePI (let! d := dList (dPair dPos dQ) v in mk_interval d).
+Definition op_combine_intervals (v : val) : val :=
+  match v with
+  | VL [is; ps] => eRes ePI (let! i := dList dPI is in let! p := dList dQ ps in combine_intervals i p)
+  | _ => VE EScript
+  end.
+Definition op_bt_pdf (v : val) : val :=
+  eRes (fun t => VS (map (fun x => VL [VL (map ePos (fst x)); VQ (snd x)]) t))
+       (let! d := dList (dPair dPos dQ) v in ok (bt_pdf d)).
+Definition op_calc_prob (v : val) : val :=
+  match v with
+  | VL [d; r] => eRes VQ (let! d' := dList (dPair dPos dQ) d in let! r' := dList dPos r in ok (calc_prob d' r'))
+  | _ => VE EScript
+  end.
+Definition op_slate_bt_pdf (v : val) : val :=
+  match v with
+  | VL [sizes; own; opp; coh] =>
+      eRes (fun t => VS (map (fun x => VL [VL (map ePos (fst x)); VQ (snd x)]) t))
+           (let! sz := dList (dPair dPos dNat) sizes in let! a := dPos own in let! b := dPos opp in
+            let! c := dQ coh in ok (slate_bt_pdf sz a b c))
+  | _ => VE EScript
+  end.
+
 Definition dispatch (op : Z) (v : val) : val :=
   match op with
   | 1 => op_remove_cand v
@@ -327,6 +358,11 @@ Definition dispatch (op : Z) (v : val) : val :=
   | 71 => op_load_scottish v
   | 72 => op_to_csv v
   | 80 => op_lp_sum v
+  | 90 => op_mk_interval v
+  | 91 => op_combine_intervals v
+  | 92 => op_bt_pdf v
+  | 93 => op_calc_prob v
+  | 94 => op_slate_bt_pdf v
   | 81 => op_linf v
   | 82 => op_graph v
   | 83 => op_node_weights v
